@@ -74,7 +74,7 @@ let parse_event (tok : string) : ev =
   | 'S' -> ESnd (idx ())
   | 'I' -> EInj (idx ())
   | 'F' -> EFrm (nat_of_int (n 1), z_of_int (n 2), seg_at 3)
-  | 'A' -> EArr (nat_of_int (n 1), z_of_int (n 2), seg_at 3, n 11 = 1)
+  | 'A' -> EArr (nat_of_int (n 1), z_of_int (n 2), seg_at 3)
   | 'N' -> ENtf (nat_of_int (n 1), z_of_int (n 2), (key (n 3) (n 4), key (n 5) (n 6)))
   | 'B' -> EByt (nat_of_int (n 1), z_of_int (n 2), (key (n 3) (n 4), key (n 5) (n 6)))
   | _ -> failwith ("event " ^ tok)
@@ -93,18 +93,17 @@ let () =
     let out =
       try
         let (c, il) = split_pair line in
-        if String.length il >= 5 && String.sub il 0 5 = "CRASH" then "REJECT 0 the simulation crashed"
+        if String.length il >= 5 && String.sub il 0 5 = "CRASH" then "REJECT 0 the simulation crashed or hung"
         else begin
           let (script, ms) = parse_case c in
           let toks = Conv.tokens il in
-          let hung = List.mem "HANG" toks in
           let anomalies =
             List.exists (fun t -> String.length t > 2 && String.sub t 0 2 = "X=" && t <> "X=0") toks in
-          let evtoks = List.filter (fun t -> t <> "HANG" && not (String.length t >= 2 && String.sub t 0 2 = "X=")) toks in
+          let evtoks = List.filter (fun t -> not (String.length t >= 2 && String.sub t 0 2 = "X=")) toks in
           if anomalies then "REJECT 0 anomalies in the trace"
           else begin
             let evs = List.map parse_event evtoks in
-            match int_of_z (validate script ms evs hung) with
+            match int_of_z (validate script ms evs) with
             | 0 -> "ACCEPT"
             | 1 ->
                 (* find the first event the model refuses *)
@@ -115,10 +114,8 @@ let () =
                        | Some st' -> go st' es' ts' (i + 1)
                        | None -> Printf.sprintf "event %d `%s` contradicts the model" i t)
                   | _, _ -> "?" in
-                "REJECT 1 " ^ go { v_ms = ms; v_owed = []; v_inj = []; v_hung = false } evs evtoks 0
-            | 2 -> "REJECT 2 a reply owed by Tcp::demux or an injected segment never appeared on the link"
-            | _ -> if hung then "REJECT 3 the simulation hung but the model predicts no deadlock"
-                   else "REJECT 3 the model predicts a deadlock but the simulation went on"
+                "REJECT 1 " ^ go { v_ms = ms; v_owed = []; v_inj = [] } evs evtoks 0
+            | _ -> "REJECT 2 a reply owed by Tcp::demux or an injected segment never appeared on the link"
           end
         end
       with e -> "REJECT 9 driver: " ^ Printexc.to_string e
